@@ -2,6 +2,7 @@ package types
 
 import (
 	"bytes"
+	"errors"
 	"io"
 
 	"reflect"
@@ -131,7 +132,8 @@ func newSemVerType3(limits px.List) *SemVerType {
 	}
 
 	if argc == 1 {
-		if ranges, ok := limits.At(0).(px.List); ok {
+		// a String is a List too (of its characters) but here it is a version range, not a list of ranges
+		if ranges, ok := limits.At(0).(*Array); ok {
 			return newSemVerType3(ranges)
 		}
 	}
@@ -143,6 +145,10 @@ func newSemVerType3(limits px.List) *SemVerType {
 		if ok {
 			var err error
 			rng, err = semver.ParseVersionRange(string(str))
+			if err == nil && rng == nil {
+				// the empty string yields no range and no error
+				err = errors.New(`'' is not a valid version range`)
+			}
 			if err != nil {
 				panic(illegalArgument(`SemVer[]`, idx, err.Error()))
 			}
